@@ -283,6 +283,10 @@ func runC20(c *Ctx) {
 				return "", false
 			}
 			if ix, ok := ast.Unparen(se.X).(*ast.IndexExpr); ok && fieldSel(info, ix.X, "wgPerSameShutdownOrder") {
+				// the order waited for, as the caller of a wait helper spells it
+				if cpt, found := f.PointOf(cl); found {
+					return f.KeyAt(ix.Index, cpt), true
+				}
 				return exprKey(ix.Index), true
 			}
 			return "", false
